@@ -378,10 +378,19 @@ func (ex *Exec) doUnOp(st *State, fr *Frame, u *ssa.UnOp) {
 			et := u.Type().(*types.Tuple).At(0).Type()
 			v := freshValue("recv", et)
 			ex.assumeInv(st, et, v)
-			fr.Regs[u] = TupleV{[]Value{v, Scalar{Fresh("recvok", SBool)}}}
+			okv := Fresh("recvok", SBool)
+			if ci, cet := ex.chanInvOf(u.X); ci != nil {
+				st.assume(Implies(okv, ex.chanValueFact(st, fr, ci, v, cet)))
+			}
+			fr.Regs[u] = TupleV{[]Value{v, Scalar{okv}}}
 		} else {
 			v := freshValue("recv", u.Type())
 			ex.assumeInv(st, u.Type(), v)
+			// (a receive from a closed channel yields the zero value: invariants are declared for channels
+			// that are not closed while values are expected - none of the annotated ones is ever closed)
+			if ci, cet := ex.chanInvOf(u.X); ci != nil {
+				st.assume(ex.chanValueFact(st, fr, ci, v, cet))
+			}
 			fr.Regs[u] = v
 		}
 	default:
@@ -958,6 +967,47 @@ func isInvalid(t types.Type) bool {
 	return ok && b.Kind() == types.Invalid
 }
 
+// chanInvOf: the invariant declared for the channel an SSA value denotes, when that value is read from a
+// struct field with a 'chan' clause in its type block (x.f, possibly through a captured variable).
+func (ex *Exec) chanInvOf(v ssa.Value) (*Clause, types.Type) {
+	ld, ok := v.(*ssa.UnOp)
+	if !ok || ld.Op != token.MUL {
+		return nil, nil
+	}
+	fa, ok := ld.X.(*ssa.FieldAddr)
+	if !ok {
+		return nil, nil
+	}
+	pt, ok := under(fa.X.Type()).(*types.Pointer)
+	if !ok {
+		return nil, nil
+	}
+	st, ok := under(pt.Elem()).(*types.Struct)
+	if !ok {
+		return nil, nil
+	}
+	ts := ex.Specs.Types[typeName(pt.Elem())]
+	if ts == nil || ts.ChanInv == nil {
+		return nil, nil
+	}
+	c, ok := ts.ChanInv[st.Field(fa.Field).Name()]
+	if !ok {
+		return nil, nil
+	}
+	ch, _ := under(st.Field(fa.Field).Type()).(*types.Chan)
+	if ch == nil {
+		return nil, nil
+	}
+	return &c, ch.Elem()
+}
+
+// chanValueFact evaluates a channel invariant for the value val (bound to v).
+func (ex *Exec) chanValueFact(st *State, fr *Frame, c *Clause, val Value, et types.Type) *Term {
+	env := ex.loopEnv(st, fr)
+	env.vars["v"] = TV{val, et}
+	return ex.evalBool(env, c.Expr)
+}
+
 // ---------- go / select ----------
 
 // doGo: the spawned body is not followed, but what its contract requires at entry must hold where the
@@ -1026,6 +1076,22 @@ func (ex *Exec) doSelect(st *State, fr *Frame, s *ssa.Select) {
 		tv.V = append(tv.V, v)
 	}
 	fr.Regs[s] = tv
+	// channel invariants: a value received in the chosen case satisfies it; a value offered in a send case must
+	{
+		k := 2
+		for i, state := range s.States {
+			if state.Dir == types.RecvOnly {
+				if ci, cet := ex.chanInvOf(state.Chan); ci != nil {
+					st.assume(Implies(Eq(idx, IntLit(int64(i))), ex.chanValueFact(st, fr, ci, tv.V[k], cet)))
+				}
+				k++
+			} else if state.Dir == types.SendOnly {
+				if ci, cet := ex.chanInvOf(state.Chan); ci != nil {
+					ex.emit(st, "pre", ex.srcLabel(fr.Fn, state.Pos, "chan-send"), ex.chanValueFact(st, fr, ci, ex.val(st, fr, state.Send), cet), state.Pos, nil)
+				}
+			}
+		}
+	}
 	// ghost assignments attached to this select ("after select#k set ..."): selidx is the chosen
 	// case, recvN the value received by case N (if it is a receive)
 	if sp := ex.Specs.Funcs[specName(fr.Fn)]; sp != nil && len(sp.GhostSets) > 0 {
